@@ -58,7 +58,7 @@ def replay(path, repo):
     pid = j['property']
     print('replay of %s: property %s, obligation %s' % (path, pid, j.get('obligation')))
     if j.get('native_input') is not None:
-        script = os.path.join(ROOT, 'replay', 'native', pid + '.py')
+        script = os.path.join(ROOT, 'replay', 'native', j.get('native_property', pid) + '.py')
         env = dict(os.environ)
         env['PYTHONPATH'] = repo
         p = subprocess.run([PY_NATIVE, script, '--replay', path], cwd=repo, env=env, capture_output=True, text=True)
@@ -134,11 +134,41 @@ def run_check(pid, tier, repo, seed, opts):
                                'failed_obligations': [o['name'] for o in bad][:5]})
             if not killed and not und:
                 checker_errors.append('canary survived: %s' % note)
+    # ---- engine vs CPython differential (every check; also part of setup_cmd): a test of the trusted base
+    diff_res = None
+    if not opts.no_native:
+        try:
+            p = subprocess.run([sys.executable, '-m', 'pyvc.difftest'], cwd=ROOT, capture_output=True, text=True, timeout=600,
+                               env=dict(os.environ, CARDUTIL_REPO=repo))
+            diff_res = p.stdout.strip().splitlines()[-1] if p.stdout.strip() else 'no output'
+            if p.returncode == 1:
+                checker_errors.append('engine disagrees with CPython: ' + diff_res)
+        except subprocess.TimeoutExpired:
+            diff_res = 'timeout'
     # ---- bounded stand-in when the proof is not complete (or always in the thorough tier)
+    # The bounded native stand-ins (of this property and of the properties it is a lemma over) run on EVERY check: they realise
+    # counterexamples, stand in where the proof is undecided, and are a safety net for gaps between the engine's model of
+    # Python and CPython.  They are labelled bounded and never counted as discharged.
     standin = None
+    standins = []
     need_native = bool(sat or unknown or undecided_units)
-    if not opts.no_native and (need_native or tier == 'thorough'):
-        standin = native_standin(pid, repo, tier, seed, inputs=[o['native'] for o in sat if o.get('native') is not None][:20])
+    if not opts.no_native:
+        order = [pid]
+        todo = [pid]
+        while todo:
+            for d in reg.PROPS.get(todo.pop(), {}).get('deps', []):
+                if d not in order:
+                    order.append(d)
+                    todo.append(d)
+        inputs = [o['native'] for o in sat if o.get('native') is not None][:20]
+        for k, p2 in enumerate(order):
+            budget_tier = tier if (need_native or tier == 'thorough' or k == 0) else 'quick'
+            r = native_standin(p2, repo, budget_tier, seed, inputs=inputs)
+            if r is not None:
+                r['property'] = p2
+                standins.append(r)
+        with_fail = [r for r in standins if r.get('failures')]
+        standin = with_fail[0] if with_fail else (standins[0] if standins else None)
     # ---- verdict
     os.makedirs(os.path.join(ROOT, 'replay', 'found'), exist_ok=True)
     violations = []
@@ -157,6 +187,7 @@ def run_check(pid, tier, repo, seed, opts):
             confirmed = native_fail[0]
             rec['native_input'] = confirmed.get('input')
             rec['native_detail'] = confirmed.get('detail')
+            rec['native_property'] = standin.get('property', pid)
             used_native = True
         is_known = any(k.get('obligation') == o['name'] and (confirmed is None or k.get('witness') == confirmed.get('class')) for k in known)
         if is_known:
@@ -174,7 +205,8 @@ def run_check(pid, tier, repo, seed, opts):
     if native_fail and not used_native:
         f = native_fail[0]
         rp = os.path.join(ROOT, 'replay', 'found', '%s_native.json' % pid)
-        json.dump({'property': pid, 'obligation': None, 'native_input': f.get('input'), 'native_detail': f.get('detail'), 'repo': repo},
+        json.dump({'property': pid, 'obligation': None, 'native_input': f.get('input'), 'native_detail': f.get('detail'), 'repo': repo,
+                   'native_property': standin.get('property', pid)},
                   open(rp, 'w'), indent=1, default=str)
         violations.append(({'name': 'native:' + str(f.get('class'))}, rp, ''))
     for o in unknown:
@@ -218,7 +250,8 @@ def run_check(pid, tier, repo, seed, opts):
         'paths_vacuous': sum(r.get('vacuous_paths', 0) for r in results),
         'canaries': canary_res,
         'cvc5_cross_check': {'agree_unsat': cvc5_agree, 'other': cvc5_other},
-        'bounded_standins': [standin] if standin else [],
+        'engine_vs_cpython_differential': diff_res or 'not run (--no-native)',
+        'bounded_standins': standins,
         'undecided': [o['name'] for o in unknown] + undecided_units,
         'failed_obligations': [{'name': o['name'], 'unit': o['unit'], 'tier': o['tier'], 'model': o.get('model')} for o in sat],
         'evaluations': len(obs), 'distinct_nontrivial': nontrivial,
@@ -242,6 +275,8 @@ def run_check(pid, tier, repo, seed, opts):
     # evidence/<id>.json is only ever written from a run against /repo itself; runs against scratch copies
     # (seeded changes, canaries) go to evidence_scratch/ which is not committed
     evdir = os.path.join(ROOT, 'evidence' if os.path.realpath(repo) == os.path.realpath('/repo') else 'evidence_scratch')
+    if evdir.endswith('evidence_scratch') and os.environ.get('PYVC_EVIDENCE_DIR'):
+        evdir = os.environ['PYVC_EVIDENCE_DIR']
     os.makedirs(evdir, exist_ok=True)
     json.dump(ev, open(os.path.join(evdir, pid + '.json'), 'w'), indent=1, default=str)
     # ---- output
@@ -252,8 +287,8 @@ def run_check(pid, tier, repo, seed, opts):
             print('   %-7s %-2s %-60s %s %.3fs' % (o['status'], o['tier'], o['name'][:60], o['unit'], o['time']))
     for c in canary_res:
         print('   canary %-60s %s' % (c['canary'][:60], c['result']))
-    if standin:
-        print('   bounded stand-in: %s -> %s (%s evaluations)' % (standin['tool'], standin['result'], standin.get('evaluations')))
+    for st in standins:
+        print('   bounded stand-in: %s -> %s (%s evaluations, %.0fs)' % (st['tool'], st['result'], st.get('evaluations'), st.get('wall_s', 0)))
     for l in lines:
         print(l)
     if seen:
